@@ -59,6 +59,9 @@ def scenario_of(case):
             scn["checkpoint"]["fit_in_context"] = True
         elif v == 1:
             scn["checkpoint"]["earlier_call_in_context"] = True
+            if int(r2.integers(2)):
+                # ... followed by a refit (default overwrite=False) before the judged run
+                scn["checkpoint"]["refit_after_earlier_call"] = True
     pre = None
     if case["run_index"] % 8 == 5:
         # two sampler-level runs of the SAME fixed schedule into one file, with a cadence longer than the run: each writes only
